@@ -123,7 +123,7 @@ static void setup(int tb, const char *argvtok) {
     memset(&abst, 0, sizeof(abst)); nhelp = 0;
     SPIFOPT_OPTLIST_SET(table);
     SPIFOPT_NUMOPTS_SET(nopt);
-    SPIFOPT_ALLOWBAD_SET(60000);
+    SPIFOPT_ALLOWBAD_SET(255);          /* the limit is an 8-bit field: its largest value, so that limit handling never starts */
     SPIFOPT_BADOPTS_SET(0);
     SPIFOPT_HELPHANDLER_SET(help_handler);
     spifopt_settings.flags = 0;
